@@ -16,11 +16,15 @@ construction, with no explorer involved in the replay.
 """
 from __future__ import print_function
 import sys, os, json, time, hashlib, argparse, importlib, itertools, signal
-import traceback, resource, subprocess, collections
+import traceback, resource, subprocess, collections, tempfile
 import multiprocessing as mp
 
 VERIF = os.path.dirname(os.path.dirname(os.path.abspath(__file__)))
 REPO = os.path.abspath(os.environ.get("VERIF_REPO", "/repo"))
+# evidence and replay artefacts of a run against anything but /repo itself (a scratch worktree
+# with a seeded change applied) never land in /verif: the committed evidence describes /repo only
+OUT = os.environ.get("VERIF_OUT") or (
+    VERIF if REPO == "/repo" else os.path.join(tempfile.gettempdir(), "verif-scratch-out"))
 NPROC = int(os.environ.get("VERIF_WORKERS", "0")) or min(16, os.cpu_count() or 1)
 
 
@@ -333,7 +337,7 @@ class Run(object):
           "level": self.level, "coverage": cov,
           "assumptions": self.assumptions,
           "wall_s": round(time.time() - self.t0, 2), "violations": nviol}
-    d = os.path.join(VERIF, "evidence")
+    d = os.path.join(OUT, "evidence")
     os.makedirs(d, exist_ok=True)
     tmp = os.path.join(d, ".%s.json.tmp%d" % (self.pid, os.getpid()))
     with open(tmp, "w") as f:
@@ -361,7 +365,7 @@ def match_known(known, key):
 
 
 def write_artefact(art, known=False):
-  d = os.path.join(VERIF, "replays")
+  d = os.path.join(OUT, "replays")
   os.makedirs(d, exist_ok=True)
   h = hashlib.sha1(json.dumps([art["kind"], art["case"]], sort_keys=True)
                    .encode()).hexdigest()[:12]
